@@ -238,6 +238,30 @@ fn c02_future_start() {
 }
 rt_harness!(c02_future_start_time, 5, c02_future_start());
 
+/// non-zero (possibly bucket-unaligned) start time with several buckets: two events at/after the
+/// start time are handled in timestamp order at their timestamps
+fn c02_start_two(n: usize, t: u32) {
+    let s = any_in(0, 3);
+    let a = any_in(s, 5);
+    let b = any_in(s, 5);
+    let mut bld = builder(n, t).start_time(st(s));
+    bld.limit = RuntimeLimit::None;
+    let mut rt = bld.build(App::new());
+    rt.add_event(Ev::Leaf(1), st(a));
+    rt.add_event(Ev::Leaf(2), st(b));
+    rt.start();
+    let s1 = rt.dispatch_event();
+    let s2 = rt.dispatch_event();
+    assert!(!s1 && !s2 && rt.app.n == 2, "C02 each event handled exactly once (non-zero start time)");
+    let (ta, tb) = if b < a { (b, a) } else { (a, b) };
+    assert!(rt.app.times[0] == ta && rt.app.times[1] == tb, "C02 events handled in non-decreasing timestamp order at their timestamps (non-zero start time)");
+    assert!(SimTime::now() == st(tb), "C02 clock equals timestamp of last event");
+    kani::cover!(s % t != 0 && ta > s && ta / t == s / t && tb / t > s / t, "REACH unaligned start time, one event later in the start bucket, one in a later bucket");
+    kani::cover!(true, "REACH end of harness");
+    std::mem::forget(rt);
+}
+rt_harness!(c02_start_time_two_events_n2t3, 5, c02_start_two(2, 3));
+
 /// past event after one dispatch (now = last event time) must be rejected
 fn c02_past_after() {
     let mut rt = mk_rt(1, 2, RuntimeLimit::None);
